@@ -359,6 +359,10 @@ pub const ENTRIES: &[Entry] = &[
     e!("algo_object_traits", &[L, M, WI, WU], Args::XY),
     // the iterator protocol: next() after exhaustion, size_hint, dropping half-consumed iterators
     e!("iter_protocol", ALL, Args::X),
+    // stateful traversal objects: advance the iterator y-class many steps (0, 1, 2, 3, 5, all), then call the
+    // finishing methods (distances / predecessors / shortest_path / cycles), a second one on the same object
+    e!("advance_finish", ALL, Args::XY),
+    e!("dijkstra_advance_finish", &[WU], Args::XY),
     e!("prng", &[L], Args::None),
     // generated call sequences: (x, y, cb, t) only encode the sequence's seed
     e!("seq", UNW, Args::XY),
@@ -627,6 +631,18 @@ fn gen_order(x: Id) -> usize {
         Id::InLast => 1,
         Id::Order => 2,
         _ => 6,
+    }
+}
+
+/// Number of `next()` calls before the finishing method, from the y class.
+fn advance_steps(y: Id) -> usize {
+    match y {
+        Id::In0 => 0,
+        Id::InLast => 1,
+        Id::Order => 2,
+        Id::OrderP1 => 3,
+        Id::Far => 5,
+        Id::Max => usize::MAX,
     }
 }
 
@@ -1061,6 +1077,51 @@ pub fn body(p: &Prog) -> u64 {
                 + twice!(DijkstraPred::new(&g, [x].into_iter()))
                 + DijkstraPred::new(&g, [x].into_iter()).clone().predecessors().pred.len()
                 + DijkstraDist::new(&g, [x].into_iter()).clone().distances().len()
+        }),
+        "advance_finish" => on!(p, d, [L, M, X, E, WI, WU], |g| {
+            let k = advance_steps(p.y);
+            let last = d.v.iter().next_back().copied().unwrap_or(0);
+            macro_rules! adv {
+                ($make:expr, |$it:ident| $fin:expr) => {{
+                    let mut $it = $make;
+                    for _ in 0..k {
+                        if $it.next().is_none() {
+                            break;
+                        }
+                    }
+                    $fin
+                }};
+            }
+            adv!(BfsDist::new(&g, [x].into_iter()), |it| it.distances().len() + it.distances().len() + it.count())
+                + adv!(BfsPred::new(&g, [x].into_iter()), |it| it.predecessors().pred.len() + it.cycles().len())
+                + adv!(BfsPred::new(&g, [x].into_iter()), |it| it.shortest_path(|v| v == last).map_or(0, |w| w.len())
+                    + it.shortest_path(|v| v == x).map_or(0, |w| w.len())
+                    + it.predecessors().pred.len())
+                + adv!(BfsPred::new(&g, [x].into_iter()), |it| it.cycles().len() + it.shortest_path(|_| true).map_or(0, |w| w.len()))
+                + adv!(DfsPred::new(&g, [x].into_iter()), |it| it.predecessors().pred.len() + it.predecessors().pred.len() + it.count())
+                + adv!(DfsDist::new(&g, [x].into_iter()), |it| it.count())
+        }),
+        "dijkstra_advance_finish" => on!(p, d, [WU], |g| {
+            let k = advance_steps(p.y);
+            let last = d.v.iter().next_back().copied().unwrap_or(0);
+            macro_rules! adv {
+                ($make:expr, |$it:ident| $fin:expr) => {{
+                    let mut $it = $make;
+                    for _ in 0..k {
+                        if $it.next().is_none() {
+                            break;
+                        }
+                    }
+                    $fin
+                }};
+            }
+            adv!(DijkstraDist::new(&g, [x].into_iter()), |it| it.distances().len() + it.distances().len() + it.count())
+                + adv!(DijkstraPred::new(&g, [x].into_iter()), |it| it.predecessors().pred.len() + it.count())
+                + adv!(DijkstraPred::new(&g, [x].into_iter()), |it| it.shortest_path(|v| v == last).map_or(0, |w| w.len())
+                    + it.shortest_path(|v| v == x).map_or(0, |w| w.len())
+                    + it.predecessors().pred.len())
+                + adv!(DijkstraPred::new(&g, [x, last].into_iter()), |it| it.shortest_path(|_| true).map_or(0, |w| w.len())
+                    + it.shortest_path(|v| v == last).map_or(0, |w| w.len()))
         }),
         "std_traits" => on!(p, d, [L, M, X, E, WI, WU], |g| {
             use std::fmt::Write as _;
@@ -1704,10 +1765,27 @@ pub mod rnd {
                 acc += match $rng.below(12) {
                     0 => Bfs::new(g, src.into_iter()).count(),
                     1 => BfsDist::new(g, src.into_iter()).distances().len(),
-                    2 => BfsPred::new(g, src.into_iter()).shortest_path(|w| w == y).map_or(0, |p| p.len()),
-                    3 => BfsPred::new(g, src.into_iter()).cycles().len(),
+                    2 => {
+                        // finishing methods on an iterator that was already advanced
+                        let mut it = BfsPred::new(g, src.into_iter());
+                        for _ in 0..$rng.below(4) {
+                            let _ = it.next();
+                        }
+                        it.shortest_path(|w| w == y).map_or(0, |p| p.len()) + it.shortest_path(|w| w == x).map_or(0, |p| p.len())
+                    }
+                    3 => {
+                        let mut it = BfsPred::new(g, src.into_iter());
+                        for _ in 0..$rng.below(4) {
+                            let _ = it.next();
+                        }
+                        it.cycles().len()
+                    }
                     4 => {
-                        let t = BfsPred::new(g, src.into_iter()).predecessors();
+                        let mut it = BfsPred::new(g, src.into_iter());
+                        for _ in 0..$rng.below(3) {
+                            let _ = it.next();
+                        }
+                        let t = it.predecessors();
                         t.search(x, y).map_or(0, |p| p.len()) + t.search_by(x, |&v, _| v == y).map_or(0, |p| p.len())
                     }
                     5 => Dfs::new(g, src.into_iter()).count(),
@@ -1788,8 +1866,20 @@ pub mod rnd {
                     acc += match rng.below(5) {
                         0 => Dijkstra::new(&g, src.into_iter()).count(),
                         1 => DijkstraDist::new(&g, src.into_iter()).distances().len(),
-                        2 => DijkstraPred::new(&g, src.into_iter()).shortest_path(|v| v == y).map_or(0, |w| w.len()),
-                        3 => DijkstraPred::new(&g, src.into_iter()).predecessors().search(y, 0).map_or(0, |w| w.len()),
+                        2 => {
+                            let mut it = DijkstraPred::new(&g, src.into_iter());
+                            for _ in 0..rng.below(4) {
+                                let _ = it.next();
+                            }
+                            it.shortest_path(|v| v == y).map_or(0, |w| w.len()) + it.shortest_path(|_| true).map_or(0, |w| w.len())
+                        }
+                        3 => {
+                            let mut it = DijkstraPred::new(&g, src.into_iter());
+                            for _ in 0..rng.below(4) {
+                                let _ = it.next();
+                            }
+                            it.predecessors().search(y, 0).map_or(0, |w| w.len())
+                        }
                         _ => DijkstraDist::new(&g, src.into_iter()).map(|(_, d)| d).sum::<usize>() + DijkstraPred::new(&g, [y].into_iter()).count(),
                     };
                 }
